@@ -386,7 +386,7 @@ func checkSlash(c *core.Ctx) {
 		// complement: the slashed part is computed as original − kept (one rounding), never as an
 		// independently rounded share — two roundings lose a unit per item
 		if slashBase != nil {
-			sl := core.Unwrap(slashBase.Arg(0))
+			sl := core.Unwrap(c.CallerArg(slashBase.Arg(0)))
 			compl := false
 			for _, s2 := range c.GroupSites(fn) {
 				if s2.Callee != "(*math/big.Int).Sub" || len(s2.Common.Args) != 3 || core.Unwrap(s2.Common.Args[0]) != sl {
